@@ -1,7 +1,7 @@
 """C11 — the backtracking stack is transactional for every history."""
 from props.common import *
 
-MODULE = "PestModel.Thm.C11"
+MODULE = ["PestModel.Thm.C11", "PestModel.Thm.C11Txn"]
 DRV, MODE = "drv_stack", "stack"
 
 
